@@ -1,0 +1,8 @@
+//go:build !verif
+
+// Package verifhook provides instrumentation points for the verification harness.
+// Without the `verif` build tag every hook is an empty function the compiler inlines away.
+package verifhook
+
+// At marks an instrumentation point. It does nothing in normal builds.
+func At(point string, args ...interface{}) {}
